@@ -56,7 +56,7 @@ pub fn run(ctx: &Ctx) -> PropReport {
     let mut rep = PropReport::new("C04", "exploration");
     let tier = ctx.tier;
     let rule = "windows 0..=12 (about 20% each on 0 and 1), delays 0..=6, sparse on/off, one link starved for 0.2-30 s with the disconnect timeout raised to 60 s; oracle: every first simulation of frame f satisfies f - C <= max_prediction with C = newest frame held for all connected players (session accessor, and independently the network ledger of delivered input frames); every Load is <= max_prediction behind the game frame; window 0: never Save/Load, only Confirmed/Disconnected inputs, a call without Advance leaves current_frame() unchanged (also through advance_frame_with_wait); non-trivial = a call stalled AND the bound was reached with equality (rollback) / >=1 lockstep stall and >20 frames advanced (lockstep)";
-    rep.parts.push(run_random(ctx, "starved", rule, || gen(tier), ctx.tier.pick(1600, 6000), eval));
+    rep.parts.push(run_random(ctx, "starved", rule, || gen(tier), ctx.tier.pick(6000, 24000), eval));
     rep.floors.push(("starved".into(), 0.3));
     rep.assumptions = vec!["advance_frame_with_wait runs under an auto-ticking virtual clock (100 us per clock read) so its spin loop terminates".into()];
     rep
